@@ -37,7 +37,7 @@ def repo_path():
     return os.environ.get("NSA_REPO", "/repo")
 
 
-def tree_hash(repo):
+def tree_hash(repo, with_lock=True):
     h = hashlib.sha256()
     paths = []
     for root, dirs, files in os.walk(os.path.join(repo, "src")):
@@ -45,6 +45,8 @@ def tree_hash(repo):
         for f in sorted(files):
             paths.append(os.path.join(root, f))
     for extra in ("Cargo.toml", "Cargo.lock", "build.rs"):
+        if extra == "Cargo.lock" and not with_lock:
+            continue
         p = os.path.join(repo, extra)
         if os.path.exists(p):
             paths.append(p)
@@ -81,7 +83,8 @@ def extract(profile="dev", repo=None, crate="ndarray_stats", manifest_dir=None, 
     ensure_driver()
     os.makedirs(CACHE, exist_ok=True)
     t0 = time.time()
-    src_hash = tree_hash(manifest_dir)
+    with_lock = crate == "ndarray_stats"     # cargo may complete the lock file of the fixtures crate itself
+    src_hash = tree_hash(manifest_dir, with_lock)
     lock = open(os.path.join(CACHE, "lock"), "w")
     fcntl.flock(lock, fcntl.LOCK_EX)
     try:
@@ -128,7 +131,7 @@ def extract(profile="dev", repo=None, crate="ndarray_stats", manifest_dir=None, 
     if len(facts["bodies"]) < floor:
         raise ExtractError("anchor missing: only %d MIR bodies extracted (floor %d)"
                            % (len(facts["bodies"]), floor))
-    if tree_hash(manifest_dir) != src_hash:
+    if tree_hash(manifest_dir, with_lock) != src_hash:
         raise ExtractError("source tree changed during extraction")
     facts["_meta"] = {"profile": profile, "repo": manifest_dir, "tree_hash": src_hash,
                       "extract_s": round(time.time() - t0, 2)}
